@@ -237,3 +237,33 @@ func Param(name string, def int) int {
 	}
 	return def
 }
+
+// Date is an arbitrary instant at midnight UTC (day number since year 1).
+func Date(name string) time.Time {
+	day := intval(name)
+	return time.Unix(day*86400-62135596800, 0).UTC()
+}
+
+// DurationSec is an arbitrary whole number of seconds in [lo,hi].
+func DurationSec(name string, lo, hi int64) time.Duration {
+	s := intval(name)
+	if s < lo || s > hi {
+		panic(skip{"DurationSec outside range"})
+	}
+	return time.Duration(s) * time.Second
+}
+
+// ICalTime renders an instant as an iCalendar UTC DATE-TIME value.
+func ICalTime(t time.Time) string { return t.UTC().Format("20060102T150405Z") }
+
+// ICalDate renders an instant as an iCalendar DATE value.
+func ICalDate(t time.Time) string { return t.UTC().Format("20060102") }
+
+// ICalDuration renders a duration as an iCalendar DURATION value.
+func ICalDuration(d time.Duration) string {
+	s := int64(d / time.Second)
+	if s < 0 {
+		return "-PT" + strconv.FormatInt(-s, 10) + "S"
+	}
+	return "PT" + strconv.FormatInt(s, 10) + "S"
+}
